@@ -75,11 +75,17 @@ structure Device where
   maxSeqDur : Option Nat
   deriving DecidableEq, Repr, Inhabited
 
+/-- `limit is not None and x > limit`. -/
+def overNat (m : Option Nat) (d : Nat) : Bool :=
+  match m with
+  | some m => decide (d > m)
+  | none => false
+
 /-- `Channel.validate_duration`.  Note the order: the *requested* duration is
 compared with the limits, then rounded up to the clock. -/
 def validateDuration (c : ChanCfg) (d : Nat) : Except Err Nat :=
   if d < c.minDur then .error .durTooShort
-  else if (match c.maxDur with | some m => decide (d > m) | none => false) then .error .durTooLong
+  else if overNat c.maxDur d then .error .durTooLong
   else if d % c.clock ≠ 0 then .ok (d + (c.clock - d % c.clock))
   else .ok d
 
